@@ -138,6 +138,12 @@ theorem OkSpec.swallow {α : Type} {x : M α} {d : α} {Q : Conn → α → Conn
     subst this
     simp [excFree, List.all_append] at hg
 
+/-- `try: x except Exception as ex: y; raise`: on runs without exceptions it is `x` -/
+theorem OkSpec.tryCatch_rethrow {α β : Type} {g : List Effect → Bool} {x : M α} {y : M β}
+    {Q : Conn → α → Conn → List Effect → Prop} (hx : OkSpec g x Q) :
+    OkSpec g (M.tryCatch x fun ex => y >>= fun _ => (M.throw ex : M α)) Q :=
+  ⟨fun c a c' e h hg => hx.out c a c' e (M.tryCatch_rethrow_ok h) hg⟩
+
 /-- the walking tactic: structural rules, then the callee lemmas given -/
 syntax "ok_tac" "[" term,* "]" : tactic
 open Lean in
@@ -146,7 +152,7 @@ macro_rules
     let user ← ls.getElems.mapM fun l => `(tactic| apply $l)
     let builtin ← #[``OkRel.pure, ``OkRel.throw, ``OkRel.get, ``OkRel.liftE, ``OkRel.assert, ``OkRel.int].mapM
       fun n => `(tactic| apply $(mkIdent n))
-    let tail ← #[``OkRel.bind, ``OkRel.ite, ``OkSpec.swallow].mapM fun n => `(tactic| apply $(mkIdent n))
+    let tail ← #[``OkRel.bind, ``OkRel.ite, ``OkSpec.swallow, ``OkSpec.tryCatch_rethrow].mapM fun n => `(tactic| apply $(mkIdent n))
     let all := #[← `(tactic| intro _)] ++ builtin ++ user ++ tail ++ #[← `(tactic| split), ← `(tactic| rfl), ← `(tactic| exact ⟨rfl, rfl, rfl⟩), ← `(tactic| contradiction)]
     `(tactic| repeat' (first $[| $all:tactic]*))
 
